@@ -67,6 +67,7 @@ class HypersphereART(BaseART):
         assert 1.0 >= params["rho"] >= 0.0
         assert params["alpha"] >= 0.0
         assert 1.0 >= params["beta"] >= 0.0
+        assert params["r_hat"] > 0.0
         assert isinstance(params["rho"], float)
         assert isinstance(params["alpha"], float)
         assert isinstance(params["beta"], float)
